@@ -75,6 +75,7 @@ func genC18(r *Rnd, t Tier) *Case {
 		spec.ExecCtx = pick(r, ACtxNone, ACtxBackground, ACtxCancel, ACtxValues, ACtxDeadline, ACtxDeadlineValues)
 	}
 	spec.ViaPolicies = r.P(0.3)
+	spec.Redo = spec.Proto == "http" && spec.Body == BodySeekCloser && r.P(0.4)
 	spec.CtxD = time.Duration(r.Range(50, 500)) * unit
 	spec.CtxD2 = time.Duration(r.Range(30, 600)) * unit // earlier or later than the caller's
 	if r.P(0.5) {
@@ -94,6 +95,7 @@ func genC18(r *Rnd, t Tier) *Case {
 				st.RetryAfter = r.Range(1, 3)
 			}
 			st.ConnErr = r.P(0.12)
+			st.LateUpload = r.P(0.15)
 			st.BodySize = pick(r, 0, 5, 300, 5000)
 			if st.BodySize > 0 && r.P(0.4) {
 				st.Chunks = r.Range(2, 4)
@@ -189,8 +191,32 @@ func checkC18(c *checkCtx) {
 	}
 	atts, ret, read, _, cancel := adapterAttempts(res)
 	c.cov("c18.calls." + spec.Proto)
+	// attempts of a second execution of the same request object are judged for fidelity only
+	all := atts
+	for i := range res.Log.Ev {
+		if e := &res.Log.Ev[i]; e.Kind == EvAdapter && e.L == AdRedo {
+			c.cov("c18.same_request_executed_again")
+			var first []*attemptRec
+			for _, a := range atts {
+				if a.recv.Seq < e.Seq {
+					first = append(first, a)
+				}
+			}
+			atts = first
+			break
+		}
+	}
 	// 1. fidelity of every attempt
-	for _, a := range atts {
+	for i := range res.Log.Ev {
+		if e := &res.Log.Ev[i]; e.Kind == EvAdapter && e.L == AdLateBody {
+			c.cov("c18.late_uploads")
+			if e.B != 0 {
+				c.fail("C18.fidelity", "late-body", fmt.Sprintf("attempt %d's request body was still being uploaded after its response had been returned and did not arrive complete: %s", e.A, e.Str))
+				return
+			}
+		}
+	}
+	for _, a := range all {
 		c.cov("c18.attempts")
 		if a.recv.B != 0 {
 			mask := a.recv.B
